@@ -873,18 +873,37 @@ pub(crate) fn parse_time(source: &str) -> TemporalResult<TimeRecord> {
     }
 }
 
+/// Parses an ISO string of any Temporal type: a date-time, a time (which must not also read
+/// as a year-month or month-day), a year-month or a month-day (which must exist; the ixdtf
+/// parser only reads the short forms).
+pub(crate) fn parse_any_format(s: &str) -> Option<IxdtfParseRecord<'_>> {
+    if let Ok(record) = parse_ixdtf(s, ParseVariant::DateTime) {
+        return Some(record);
+    }
+    if let Some(record) = parse_ixdtf(s, ParseVariant::Time)
+        .ok()
+        .filter(|_| !is_ambiguous_time_string(s))
+    {
+        return Some(record);
+    }
+    if let Some(record) = parse_ixdtf(s, ParseVariant::YearMonth)
+        .ok()
+        .filter(|r| r.date.is_some_and(|d| (1..=12).contains(&d.month)))
+    {
+        return Some(record);
+    }
+    parse_ixdtf(s, ParseVariant::MonthDay).ok().filter(|r| {
+        r.date.is_some_and(|d| {
+            // The reference year of a month-day is a leap year.
+            (1..=12).contains(&d.month)
+                && (1..=crate::utils::iso_days_in_month(1972, d.month)).contains(&d.day)
+        })
+    })
+}
+
 #[inline]
 pub(crate) fn parse_allowed_calendar_formats(s: &str) -> Option<&[u8]> {
-    if let Ok(r) = parse_ixdtf(s, ParseVariant::DateTime).map(|r| r.calendar) {
-        return Some(r.unwrap_or(&[]));
-    } else if let Ok(r) = IxdtfParser::from_str(s).parse_time().map(|r| r.calendar) {
-        return Some(r.unwrap_or(&[]));
-    } else if let Ok(r) = parse_ixdtf(s, ParseVariant::YearMonth).map(|r| r.calendar) {
-        return Some(r.unwrap_or(&[]));
-    } else if let Ok(r) = parse_ixdtf(s, ParseVariant::MonthDay).map(|r| r.calendar) {
-        return Some(r.unwrap_or(&[]));
-    }
-    None
+    parse_any_format(s).map(|record| record.calendar.unwrap_or(&[]))
 }
 
 // TODO: ParseTimeZoneString, ParseZonedDateTimeString
